@@ -1,8 +1,306 @@
 import Pose.Wire
-/-! Driver ops for C13. -/
-namespace PP.Driver
-open PP Wire
+import Pose.Model.Filter
+/-!
+Driver ops for C13 (EKF / UKF / PF).
 
-def opsC13 : List (String × Handler) := []
+The model functions of `Pose/Model/Filter.lean` are run at `α = BigF`.  Their kernel parameters are
+instantiated by simple stand-ins whose **contract is re-checked on every call**
+(`pinvStandIn`: Gauss–Jordan, checks `S·X = I`; `cholStandIn`: Cholesky of the lower triangle, checks
+`L·Lᵀ = M`); a violated contract is reported as `err contract-…` (the harness turns it into exit 2).
+
+The user's system is the family
+  `f_i(x,u,t) = (A0 x)_i + (B0 u)_i + c1_i + t·tf_i + af_i · sin((Wf x)_i + (Vf u)_i + phf_i)`
+  `g_i(x,u,t) = (C0 x)_i + (D0 u)_i + c2_i + t·tg_i + ag_i · sin((Wg x)_i + (Vg u)_i + phg_i)`
+with its analytic state Jacobians (stand-in for autograd; affine when `af = ag = 0`).
+-/
+namespace PP.Driver
+open PP Wire Filter
+
+abbrev F := BigF
+
+/-! ### token reader -/
+
+structure Rd where
+  a : Array F
+  pos : Nat
+
+abbrev RdM := StateT Rd (Except String)
+
+def rdV (n : Nat) : RdM (Vec F n) := do
+  let s ← get
+  if s.pos + n > s.a.size then throw "arity"
+  set { s with pos := s.pos + n }
+  let a := s.a
+  let o := s.pos
+  return fun i => a.getD (o + i.val) BigF.zero
+
+def rdM (r c : Nat) : RdM (Mat F r c) := do
+  let s ← get
+  if s.pos + r * c > s.a.size then throw "arity"
+  set { s with pos := s.pos + r * c }
+  let a := s.a
+  let o := s.pos
+  return fun i j => a.getD (o + i.val * c + j.val) BigF.zero
+
+def rdS : RdM F := do
+  let v ← rdV 1
+  return v ⟨0, by omega⟩
+
+def rdEnd : RdM Unit := do
+  let s ← get
+  if s.pos ≠ s.a.size then throw "arity"
+
+def flatV {n} (v : Vec F n) : List F := List.ofFn v
+def flatM {r c} (A : Mat F r c) : List F := (List.ofFn fun i => List.ofFn (A i)).flatten
+
+/-! ### stand-ins with contract checks -/
+
+def toArr {r c} (A : Mat F r c) : Array (Array F) := Array.ofFn fun i => Array.ofFn (A i)
+def ofArr {r c} (A : Array (Array F)) : Mat F r c := fun i j => (A.getD i.val #[]).getD j.val BigF.zero
+
+def maxAbs {r c} (A : Mat F r c) : F :=
+  (flatM A).foldl (fun m x => if BigF.lt m (BigF.abs x) then BigF.abs x else m) BigF.zero
+
+def tiny (bits : Nat) : F := BigF.scale2 BigF.one (-(bits : Int))
+
+/-- Gauss–Jordan inverse with partial pivoting; `none` when a pivot is exactly zero. -/
+def gaussInv (n : Nat) (S : Array (Array F)) : Option (Array (Array F)) := Id.run do
+  -- augmented [S | I]
+  let mut M : Array (Array F) := Array.ofFn (n := n) fun i =>
+    (S.getD i.val #[]) ++ Array.ofFn (n := n) fun j => if i.val = j.val then BigF.one else BigF.zero
+  for c in [0:n] do
+    -- pivot
+    let mut piv := c
+    let mut best := BigF.abs ((M.getD c #[]).getD c BigF.zero)
+    for r in [c+1:n] do
+      let v := BigF.abs ((M.getD r #[]).getD c BigF.zero)
+      if BigF.lt best v then
+        piv := r
+        best := v
+    if best.isZero then return none
+    let rowP := M.getD piv #[]
+    let rowC := M.getD c #[]
+    M := (M.setIfInBounds piv rowC).setIfInBounds c rowP
+    let pv := rowP.getD c BigF.zero
+    let rowN := rowP.map (fun x => BigF.div x pv)
+    M := M.setIfInBounds c rowN
+    for r in [0:n] do
+      if r ≠ c then
+        let row := M.getD r #[]
+        let fct := row.getD c BigF.zero
+        if !fct.isZero then
+          M := M.setIfInBounds r (Array.ofFn (n := 2 * n) fun j =>
+            BigF.sub (row.getD j.val BigF.zero) (BigF.mul fct (rowN.getD j.val BigF.zero)))
+  return some (M.map (fun row => row.extract n (2 * n)))
+
+/-- `pinv` stand-in. Contract re-checked: `max |S·X − I| ≤ 2⁻¹⁰⁰` (else error). -/
+def pinvStandIn {p : Nat} (S : Mat F p p) : Except String (Mat F p p) :=
+  match gaussInv p (toArr S) with
+  | none => .error "singular"
+  | some Xa =>
+    let X : Mat F p p := memoM (ofArr Xa)
+    let E := msub (mmul S X) eye
+    if BigF.lt (tiny 100) (maxAbs E) then .error "contract-pinv" else .ok X
+
+/-- lower-triangle mirror (LAPACK's Cholesky reads only the lower triangle) -/
+def symL {n} (M : Mat F n n) : Mat F n n := fun i j => if j.val ≤ i.val then M i j else M j i
+
+/-- Cholesky–Banachiewicz on the lower triangle; `none` when a pivot is not positive. -/
+def cholArr (n : Nat) (M : Array (Array F)) : Option (Array (Array F)) := Id.run do
+  let mut L : Array (Array F) := Array.replicate n (Array.replicate n BigF.zero)
+  for i in [0:n] do
+    for j in [0:i+1] do
+      let mut s := (M.getD i #[]).getD j BigF.zero
+      for t in [0:j] do
+        s := BigF.sub s (BigF.mul ((L.getD i #[]).getD t BigF.zero) ((L.getD j #[]).getD t BigF.zero))
+      if i = j then
+        if s.m ≤ 0 then return none
+        L := L.setIfInBounds i ((L.getD i #[]).setIfInBounds j (BigF.sqrt s))
+      else
+        let d := (L.getD j #[]).getD j BigF.zero
+        L := L.setIfInBounds i ((L.getD i #[]).setIfInBounds j (BigF.div s d))
+  return some L
+
+/-- `msqrt` stand-in. Contract re-checked: `max |L·Lᵀ − symL M| ≤ 2⁻¹⁴⁰ · max|M|`. -/
+def cholStandIn {n : Nat} (M : Mat F n n) : Except String (Mat F n n) :=
+  match cholArr n (toArr M) with
+  | none => .error "not-pd"
+  | some La =>
+    let L : Mat F n n := memoM (ofArr La)
+    let E := msub (mmul L (transpose L)) (symL M)
+    if BigF.lt (BigF.mul (tiny 140) (maxAbs M)) (maxAbs E) then .error "contract-msqrt" else .ok L
+
+/-! Kernel parameters of the model are total functions; the stand-ins can fail. Every handler first
+runs a pre-flight (`ekfWhy`, `ukfWhy`) that evaluates the kernels' arguments exactly as the model does
+and reports a stand-in failure as `err <kind>`; only then the model is run. As a second line of
+defence a failing stand-in inside the model returns a poisoned matrix that makes the reply an error. -/
+
+/-- marker used to poison outputs when a stand-in failed: an absurd exponent that no honest
+computation produces -/
+def poison : F := ⟨1, 1000000007⟩
+
+def isPoisoned (x : F) : Bool := x.e > 500000000 || x.e < -500000000
+
+def poisonM {r c} : Mat F r c := fun _ _ => poison
+
+def pinvK {p} (S : Mat F p p) : Mat F p p :=
+  if (flatM S).any isPoisoned then poisonM else
+  match pinvStandIn S with | .ok X => X | .error _ => poisonM
+
+def cholK {n} (M : Mat F n n) : Mat F n n :=
+  if (flatM M).any isPoisoned then poisonM else
+  match cholStandIn M with | .ok X => X | .error _ => poisonM
+
+/-! ### the system family -/
+
+structure Fam (n m p : Nat) where
+  A0 : Mat F n n
+  B0 : Mat F n m
+  c1 : Vec F n
+  tf : Vec F n
+  af : Vec F n
+  Wf : Mat F n n
+  Vf : Mat F n m
+  phf : Vec F n
+  C0 : Mat F p n
+  D0 : Mat F p m
+  c2 : Vec F p
+  tg : Vec F p
+  ag : Vec F p
+  Wg : Mat F p n
+  Vg : Mat F p m
+  phg : Vec F p
+
+def rdFam (n m p : Nat) : RdM (Fam n m p) := do
+  let A0 ← rdM n n; let B0 ← rdM n m; let c1 ← rdV n; let tf ← rdV n
+  let af ← rdV n; let Wf ← rdM n n; let Vf ← rdM n m; let phf ← rdV n
+  let C0 ← rdM p n; let D0 ← rdM p m; let c2 ← rdV p; let tg ← rdV p
+  let ag ← rdV p; let Wg ← rdM p n; let Vg ← rdM p m; let phg ← rdV p
+  return ⟨A0, B0, c1, tf, af, Wf, Vf, phf, C0, D0, c2, tg, ag, Wg, Vg, phg⟩
+
+def affPart {r n m} (A : Mat F r n) (B : Mat F r m) (c tv : Vec F r) (t : F) (x : Vec F n) (u : Vec F m) :
+    Vec F r :=
+  fun i => mulVec A x i + mulVec B u i + c i + t * tv i
+
+def famFun {r n m} (A : Mat F r n) (B : Mat F r m) (c tv a : Vec F r) (W : Mat F r n) (V : Mat F r m)
+    (ph : Vec F r) (t : F) (x : Vec F n) (u : Vec F m) : Vec F r :=
+  memoV fun i =>
+    let lin := affPart A B c tv t x u i
+    if (a i).isZero then lin else lin + a i * BigF.sin (mulVec W x i + mulVec V u i + ph i)
+
+def famJac {r n m} (A : Mat F r n) (a : Vec F r) (W : Mat F r n) (V : Mat F r m)
+    (ph : Vec F r) (x : Vec F n) (u : Vec F m) : Mat F r n :=
+  memoM fun i =>
+    if (a i).isZero then A i else
+    let cz := a i * BigF.cos (mulVec W x i + mulVec V u i + ph i)
+    fun j => A i j + cz * W i j
+
+def Fam.sys {n m p} (fm : Fam n m p) (t : F) : Sys F n m p where
+  f := famFun fm.A0 fm.B0 fm.c1 fm.tf fm.af fm.Wf fm.Vf fm.phf t
+  g := famFun fm.C0 fm.D0 fm.c2 fm.tg fm.ag fm.Wg fm.Vg fm.phg t
+  jf := famJac fm.A0 fm.af fm.Wf fm.Vf fm.phf
+  jg := famJac fm.C0 fm.ag fm.Wg fm.Vg fm.phg
+
+/-! ### handlers -/
+
+def outPost {n} (po : Post F n) : Except String String :=
+  let xs := flatV po.x ++ flatM po.P
+  if xs.any isPoisoned then
+    .error "kernel"
+  else .ok (fmt xs)
+
+/-- common prefix: `n m p t  <family>  u y Q R x P` -/
+def rdStep (n m p : Nat) : RdM (Step F n m p × Post F n) := do
+  let t ← rdS
+  let fm ← rdFam n m p
+  let u ← rdV m; let y ← rdV p
+  let Q ← rdM n n; let R ← rdM p p
+  let x ← rdV n; let P ← rdM n n
+  return (⟨fm.sys t, u, y, Q, R⟩, ⟨x, P⟩)
+
+def runRd {β} (toks : List String) (act : RdM β) : Except String β := do
+  let xs ← nums toks
+  let (v, _) ← (do let v ← act; rdEnd; return v).run ⟨xs.toArray, 0⟩
+  return v
+
+/-- pre-flight: evaluate the kernels' arguments exactly as the model does and run the stand-ins with
+their contract checks; `"ok"` or the error kind -/
+def ekfWhy {n m p} (s : Step F n m p) (pr : Post F n) : String :=
+  let A := s.sys.jf pr.x s.u
+  let C := s.sys.jg pr.x s.u
+  let Pm := memoM (madd (mmul (mmul A pr.P) (transpose A)) s.Q)
+  let S := memoM (madd (mmul (mmul C Pm) (transpose C)) s.R)
+  match pinvStandIn S with | .ok _ => "ok" | .error e => e
+
+def ukfWhy {n m p} (kk : F) (s : Step F n m p) (pr : Post F n) : String :=
+  match cholStandIn (msmul (k n + kk) pr.P) with
+  | .error e => e ++ "-1"
+  | .ok _ =>
+    -- recompute P⁻ exactly as the model does
+    let a := w0 n kk
+    let b := wr n kk
+    let xs := (sigmaPoints cholK pr.x pr.P kk).map (fun pt => s.sys.f pt s.u)
+    let xe := memoV (xs.wsum a b)
+    let ex := xs.dev xe
+    let Pm := memoM (madd s.Q (ex.cov a b ex))
+    match cholStandIn (msmul (k n + kk) Pm) with
+    | .error e => e ++ "-2"
+    | .ok _ =>
+      let s2 := sigmaPoints cholK xe Pm kk
+      let ys := s2.map (fun pt => s.sys.g pt s.u)
+      let ye := memoV (ys.wsum a b)
+      let ey := ys.dev ye
+      let Py := memoM (madd s.R (ey.cov a b ey))
+      match pinvStandIn Py with | .ok _ => "ok" | .error e => e
+
+def opsC13 : List (String × Handler) := [
+  -- c13.ekf n m p  t <family> u y Q R x P        -> x' P'
+  ("c13.ekf", fun ts => do
+      match ts with
+      | n :: m :: p :: rest =>
+        let n ← nat n; let m ← nat m; let p ← nat p
+        let (s, pr) ← runRd rest (rdStep n m p)
+        let why := ekfWhy s pr
+        if why ≠ "ok" then throw why
+        outPost (ekf pinvK s pr)
+      | _ => throw "arity"),
+  -- c13.ukf n m p  kk t <family> u y Q R x P     -> x' P'
+  ("c13.ukf", fun ts => do
+      match ts with
+      | n :: m :: p :: kk :: rest =>
+        let n ← nat n; let m ← nat m; let p ← nat p
+        let kk ← num kk
+        let (s, pr) ← runRd rest (rdStep n m p)
+        let why := ukfWhy kk s pr
+        if why ≠ "ok" then throw why
+        outPost (ukf pinvK cholK kk s pr)
+      | _ => throw "arity"),
+  -- c13.pf n m p N  lz t <family> u y Q R x P  xp(N·n) r(N)   -> x' P' idx(N) w(N)
+  ("c13.pf", fun ts => do
+      match ts with
+      | n :: m :: p :: N :: lz :: rest =>
+        let n ← nat n; let m ← nat m; let p ← nat p; let N ← nat N
+        let lz ← num lz
+        let ((s, _pr), xp, r) ← runRd rest (do
+          let sp ← rdStep n m p
+          let xp ← rdM N n
+          let r ← rdV N
+          return (sp, xp, r))
+        let Rinv ← pinvStandIn s.R
+        let w := pfWeights (memoM Rinv) lz s xp
+        let idx := pfIndices w r
+        if hN : 0 < N then
+          let o ← outPost (pf hN pinvK lz s xp r)
+          return o ++ " " ++ fmt ((List.ofFn idx).map (fun i => BigF.ofNat i) ++ flatV w)
+        else throw "no-particles"
+      | _ => throw "arity"),
+  -- c13.weights n kk -> w0 wr
+  ("c13.weights", fun ts => do
+      match ts with
+      | [n, kk] =>
+        let n ← nat n; let kk ← num kk
+        return fmt [w0 n kk, wr n kk]
+      | _ => throw "arity")
+]
 
 end PP.Driver
